@@ -286,9 +286,11 @@ def r_column_order(ctx: Ctx, rt: RT, prop):
     I.overrides.pop("pygaps.core.pointisotherm.PointIsotherm", None)
     I.overrides["pygaps.core.baseisotherm.BaseIsotherm.__init__"] = lambda I, fi, env, n: None
     try:
-        for order in (("zeta", "pressure", "alpha", "loading", "mid"), ("pressure", "loading", "mid", "alpha", "zeta")):
+        # with and without a branch column in the table (the route every importer takes), extra columns sorting before and after "branch"
+        for order in (("zeta", "pressure", "alpha", "loading", "mid"), ("pressure", "loading", "mid", "alpha", "zeta"),
+                      ("alpha", "branch", "pressure", "zeta", "loading", "mid"), ("pressure", "loading", "alpha", "mid", "zeta", "branch")):
             def thunk(I, order=order):
-                frame = MiniFrame({c: [Num.atom(f"{c}{i}") for i in range(3)] for c in order})
+                frame = MiniFrame({c: ([Num.const(0)] * 3 if c == "branch" else [Num.atom(f"{c}{i}") for i in range(3)]) for c in order})
                 new = Obj(cls=ci, label="new", attrs={})
                 I.call_func(init, [], {"isotherm_data": frame, "pressure_key": "pressure", "loading_key": "loading", "branch": "ads"}, None, self_obj=new)
                 return new
